@@ -1084,16 +1084,28 @@ def _b_len(x):
     return len(x)
 
 
+def _const_of(x):
+    """Expr.__float__/__int__: only literals convert; everything else raises TypeError"""
+    if isinstance(x, T):
+        if x.shape == () and not x.fi:
+            e = x.get()
+            if e.op == "c":
+                return e.args[0]
+        raise LiftRaise("TypeError: UFL expression is not a constant scalar")
+    if isinstance(x, sym.Ex):
+        if x.op == "c":
+            return x.args[0]
+        raise LiftRaise("TypeError: symbolic value is not a constant")
+    return x
+
+
 def _b_float(x=0):
-    if isinstance(x, (T, sym.Ex)):
-        raise Unsupported("float() of symbolic value")
+    x = _const_of(x)
     return Fraction(x) if not isinstance(x, str) else Fraction(x)
 
 
 def _b_int(x=0):
-    if isinstance(x, (T, sym.Ex)):
-        raise Unsupported("int() of symbolic value")
-    return int(x)
+    return int(_const_of(x))
 
 
 def _b_abs(x):
